@@ -1270,6 +1270,10 @@ func c17Child(ctx *runCtx, spec string) {
 		c17ConcChild(ctx, spec)
 		return
 	}
+	if strings.HasPrefix(spec, "pipe ") {
+		c17PipeChild(ctx, spec)
+		return
+	}
 	if strings.HasPrefix(spec, "async ") {
 		c17AsyncChild(ctx, spec)
 		return
@@ -1342,7 +1346,8 @@ func c17Run(ctx *runCtx) int {
 		batch{Spec: fmt.Sprintf("conc N=2 R=2 workers=16 rounds=%d seed=%d", cr, ctx.seed*100+1), Timeout: 10 * time.Minute},
 		batch{Spec: fmt.Sprintf("conc N=3 R=1 workers=32 rounds=%d seed=%d", cr, ctx.seed*100+2), Timeout: 10 * time.Minute},
 		batch{Spec: fmt.Sprintf("async N=2 keys=%d seed=%d", ak, ctx.seed*100+3), Timeout: 10 * time.Minute},
-		batch{Spec: fmt.Sprintf("async N=3 keys=%d seed=%d", ak, ctx.seed*100+4), Timeout: 10 * time.Minute})
+		batch{Spec: fmt.Sprintf("async N=3 keys=%d seed=%d", ak, ctx.seed*100+4), Timeout: 10 * time.Minute},
+		batch{Spec: fmt.Sprintf("pipe N=2 R=2 rounds=%d seed=%d", cr*5, ctx.seed*100+5), Timeout: 10 * time.Minute})
 	parallel := 4
 	runBatches(ctx, batches, parallel, func(b batch, res batchResult, tail string) {
 		if res.Merged && res.ExitCode == 4 {
